@@ -68,7 +68,7 @@ int EGLPNUM_TYPENAME_ILLformat_error_create (
 		ILL_SAFE_MALLOC (error->theLine, len + 2, char);
 
 		strcpy (error->theLine, theLine);
-		if (error->theLine[len - 1] != '\n')
+		if (len == 0 || error->theLine[len - 1] != '\n')
 		{
 			error->theLine[len] = '\n';
 			error->theLine[len + 1] = '\0';
@@ -111,7 +111,7 @@ void EGLPNUM_TYPENAME_ILLformat_error_print (
 		if (at >= 0)
 		{
 			EGioPrintf (out, ".....");
-			for (i = 0; i <= (at - 1); i++)
+			for (i = 0; i <= (at - 1) && line[i] != '\0'; i++)
 			{
 				if (line[i] == '\t')
 				{
@@ -193,6 +193,7 @@ void EGLPNUM_TYPENAME_ILLerror_memory_free (
 		while (ths != NULL)
 		{
 			nxt = ths->next;
+			EGLPNUM_TYPENAME_ILLformat_error_delete (ths);
 			ILL_IFFREE(ths);
 			ths = nxt;
 		}
